@@ -1,8 +1,15 @@
 from vdriver import Group
 META = {'level': 'other'}
+T = 'crypto__Sha256__transform'
 def groups(tier):
     G = []
-    G.append(Group('transform.fips', 'sha256', 'C08/transform.c', enforce='crypto__Sha256__transform', unwind=65,
+    G.append(Group('transform.fips', 'sha256', 'C08/transform.c', enforce=T, unwind=65,
                    backend=['cvc5'], kind='constant-unwind', bound='loops of 16/48/64 rounds fully unwound',
                    clause='transform(state, block) == FIPS 180-4 compression for all 2^768 inputs; frame: only state_ written'))
+    G.append(Group('update.stream', 'sha256', 'C08/update.c', enforce='crypto__Sha256__update', replace=[T],
+                   loop_contracts=True, unwind=65, backend=['sat'], kind='unbounded',
+                   clause='update: for every data length, bytes absorbed in order exactly once; transform called on full blocks'))
+    G.append(Group('finalize.padding', 'sha256', 'C08/finalize.c', enforce='crypto__Sha256__finalize', replace=[T],
+                   unwind=65, backend=['sat'], kind='constant-unwind', bound='fill/length loops <= 64 iterations',
+                   clause='finalize: blocks handed to transform are the FIPS padding; digest is big-endian state'))
     return G
